@@ -63,11 +63,50 @@ def retag(prop, u, r, o):
     return o
 
 
-def refutes(prop, u, r):
+_CG = {}
+
+
+def callgraph(gdir):
+    """(access of every extracted function, public functions that reach each function through calls) from info.json"""
+    if gdir in _CG:
+        return _CG[gdir]
+    acc, calls = {}, {}
+    try:
+        for c in json.load(open(os.path.join(gdir, 'gen', 'info.json'))):
+            for f in c['functions']:
+                acc[f['cname']] = f['access']
+                calls[f['cname']] = list(f.get('calls', []))
+    except Exception:
+        pass
+    reach = {}
+    for f in acc:
+        seen, todo = set(), [f]
+        while todo:
+            x = todo.pop()
+            for y in calls.get(x, []):
+                if y not in seen:
+                    seen.add(y)
+                    todo.append(y)
+        for y in seen:
+            if acc[f] == 'public':
+                reach.setdefault(y, set()).add(f)
+    _CG[gdir] = (acc, reach)
+    return _CG[gdir]
+
+
+def is_helper(gdir, fn):
+    """a private member function: its contract is a lemma; the properties speak about the public operations"""
+    acc, _ = callgraph(gdir)
+    return acc.get(fn) == 'private'
+
+
+def refutes(prop, u, r, gdir=None):
     """does this unit result refute an obligation of prop that is not a listed known finding?  (quick tier: the
     remaining units are not waited for once the verdict is a violation)"""
     if r.get('status') != 'done':
         return False
+    if gdir and is_helper(gdir, r.get('function')):
+        return False  # a helper's failed contract alone is not yet a verdict (see corroborated_by_callers): keep going
     known = load_known()
     for o in r['obligations']:
         if o['kind'] in ('vacuity', 'unwind', 'spec-sanity') or o['status'] != 'FAILURE':
@@ -78,8 +117,59 @@ def refutes(prop, u, r):
     return False
 
 
+def corroborated_by_callers(prop, gdir, viol, results, unit_by_id):
+    """Contracts of private helpers are lemmas: every unit verifies its function with the BODIES of its callees inlined, so
+    the units of the public methods do not rest on the helpers' contracts.  When the only refuted obligations belong to
+    helpers, and every public method that (transitively) calls the helper was verified in this run -- same route, capacity
+    at least the helper unit's (range forms: any capacity, provided a single-key caller qualifies), every unit finished,
+    none refuted, and they carry obligations of this property -- the property holds on everything explored: a
+    responsibility has moved across a function boundary and the helper's contract needs updating.  Otherwise the
+    refutation stands.  Returns (remaining violations, NOTE lines)."""
+    if not viol or any(not is_helper(gdir, o['function']) for o in viol):
+        return viol, []
+    _, reach = callgraph(gdir)
+    notes = []
+    for o in viol:
+        callers = reach.get(o['function'], set())
+        if not callers:
+            return viol, []
+        is_u = '/U' in o['unit'].split('__', 1)[-1] and o.get('maxcap', 0) == 0
+        lock = '/lockcov' in o['unit']
+        single_ok = False
+        for f in callers:
+            rangeform = 'range' in f or f.endswith('__it')
+            rs = [r for r in results if r.get('function') == f and ('/lockcov' in r['unit']) == lock and (rangeform or '/REL/' not in r['unit'])
+                  and ((r.get('route') == 'U') == is_u)]
+            if not is_u and not rangeform:
+                rs = [r for r in rs if r.get('maxcap', 0) >= o.get('maxcap', 0)]
+            if not rs and rangeform:
+                continue  # this check has no unit of its own for the range form (it repeats the single-key form: C18)
+            if not rs or any(r.get('status') != 'done' for r in rs):
+                return viol, []
+            tagged = 0
+            for r in rs:
+                u = unit_by_id.get(r['unit'])
+                for x in r['obligations']:
+                    if x['kind'] in ('vacuity', 'unwind', 'spec-sanity'):
+                        continue
+                    x = retag(prop, u, r, x)
+                    if prop in x['tags']:
+                        tagged += 1
+                        if x['status'] != 'SUCCESS':
+                            return viol, []
+            if tagged == 0:
+                return viol, []
+            if not rangeform:
+                single_ok = True
+        if not single_ok:
+            return viol, []
+        notes.append('NOTE: helper contract no longer holds: %s -- every public method that uses %s still meets its contract for %s at the same capacity, so this is not a violation of the property; the helper\'s contract (contracts/*.spec) needs updating' % (o['id'], o['function'], prop))
+    return [], notes
+
+
 def decide(prop, tier, seed, gdir, units, results, notes, wall):
     undec = []
+    undec_fn = {}   # 'no verdict' entries -> the function of their unit
     u_timeouts = []
     obls = []
     unit_by_id = {u.id: u for u in units}
@@ -106,6 +196,7 @@ def decide(prop, tier, seed, gdir, units, results, notes, wall):
             if o['status'] not in ('SUCCESS', 'FAILURE'):
                 # the back end gave no verdict for this obligation (solver killed, out of memory, ...): undecided
                 undec.append('%s: no verdict (%s) for %s' % (r['unit'], o['status'], o['id'][:120]))
+                undec_fn[undec[-1]] = r['function']
                 continue
             if o['kind'] in ('unwind', 'spec-sanity') and o['status'] != 'SUCCESS':
                 undec.append('%s: %s %s: %s' % (r['unit'], o['kind'], o['status'], o['desc'][:200]))
@@ -123,6 +214,13 @@ def decide(prop, tier, seed, gdir, units, results, notes, wall):
             lines.append('KNOWN-FINDING: property=%s %s (obligation %s)' % (prop, k[0]['what'], o['id']))
         else:
             viol.append(o)
+    helpers_refuted = set(o['function'] for o in viol)
+    viol, helper_notes = corroborated_by_callers(prop, gdir, viol, results, unit_by_id)
+    for n in helper_notes:
+        lines.append(n)
+    if helper_notes:
+        # obligations of the same helper units that got no verdict (CBMC reports UNKNOWN behind a failed assertion) go with them
+        undec = [x for x in undec if undec_fn.get(x) not in helpers_refuted]
     cosd = json.load(open(os.path.join(gdir, 'OK'))).get('cosim', {})
     cos = cosd.get('calls', 0)
     ev = dict(property_id=prop, tier=tier, seed=seed,
@@ -153,7 +251,8 @@ def decide(prop, tier, seed, gdir, units, results, notes, wall):
         print(l)
     for t in u_timeouts:
         print('NOTE: route U unit did not finish, the bounded (route B) result stands: ' + t)
-    print('%s %s: %d obligations, %d discharged, %d refuted (%d known), %d units (%d cached), %.0fs' % (prop, tier, len(obls), len(obls) - len(refuted), len(refuted), len(refuted) - len(viol), len(units), ev['coverage']['units_cached'], wall))
+    print('%s %s: %d obligations, %d discharged, %d refuted (%d known%s), %d units (%d cached), %.0fs' % (prop, tier, len(obls), len(obls) - len(refuted), len(refuted), len(refuted) - len(viol) - len(helper_notes),
+          ', %d helper contract only' % len(helper_notes) if helper_notes else '', len(units), ev['coverage']['units_cached'], wall))
     if viol:
         import replay_gen
         seen = set()
